@@ -1,5 +1,6 @@
 PROPS["C02"] = dict(
-    jobs=[job("decode", "c02_decode", cases={Q: 0, T: 0}, ref_harness="c02_decode")],
+    jobs=[job("decode", "c02_decode", cases={Q: 0, T: 0}, ref_harness="c02_decode"),
+          job("purity", "purity", cases={Q: 1500, T: 60000}, shards=16, mode="purity", args={"prop": "C02"})],
     crash_is_violation=True,
     rule="complete enumeration of the 65536 first words (split over 16 shards): rows of the tree's decode table matching "
          "each opcode (<=1), handler identity and expansion flag of recording visitor vs interpreter table vs disassembler vs "
@@ -7,9 +8,10 @@ PROPS["C02"] = dict(
          "{0x12345,0x10000,0x1ABCD,0x1FFFC}; position twin (same state, start address in program page 0 and in page 1: pc afterwards must be position-relative (sequential or relative branch) or absolute); every class of opcodes that differ only in unused bits (by the tree's table and by "
          "the frozen reference's table) must print identically for 6 second words and execute identically from 4 (quick) / 32 "
          "(thorough) states; generator stream records checked for expand/undefined agreement. distinct_nontrivial = handler "
-         "names whose fetches were observed + unused-bit classes (>1 member) compared",
-    floors={Q: {"fetch_observed": 60000, "position_twins_observed": 50000, "tree_unused_bit_classes": 20, "generator_records": 80000},
-            T: {"fetch_observed": 60000, "position_twins_observed": 50000, "tree_unused_bit_classes": 20, "generator_records": 1000000}},
+         "names whose fetches were observed + unused-bit classes (>1 member) compared + (entry point, relation to an earlier call) pairs of the purity histories. "
+         "purity: 16-40 call histories over Decode<V>/NeedExpansion/GetTokenList/Do/Parse (repeats, colliding opcodes op^0x8000 / op+128k / op^bit, other second word, other ar/arp settings) in a forked child of a parent that never called them; each result must equal the same call repeated later and the same call as the first call of a new thread, and the form/length must equal the first matching table row",
+    floors={Q: {"fetch_observed": 60000, "position_twins_observed": 50000, "tree_unused_bit_classes": 20, "generator_records": 80000, "determinism_comparisons": 500000, "rel_op^8000": 10000},
+            T: {"fetch_observed": 60000, "position_twins_observed": 50000, "tree_unused_bit_classes": 20, "generator_records": 1000000, "determinism_comparisons": 20000000, "rel_op^8000": 400000}},
     exhaustive=True,
     exhaustive_axis="all 65536 first words (decode/length/form clauses); states, second words and start addresses sampled",
     ready=True,
